@@ -255,6 +255,69 @@ Proof.
   rewrite (flags_string_bits _ _ _ _ Ha n), (flags_string_bits _ _ _ _ Hb n). apply Hsame.
 Qed.
 
+(* the dict spelling {label: truthy, ...}: the union of the masks of the labels that are bound to a true value (private keys skipped) - the same
+   integer as the string spelling of those labels *)
+Definition entry_mask (table : list (name * Z)) (e : name * val) : option (option Z) :=
+  if is_private (fst e) then Some None
+  else if truthy (snd e) then match label_value table (cps_of_name (fst e)) with Some z => Some (Some z) | None => None end
+  else Some None.
+
+Fixpoint union_entries (table : list (name * Z)) (kv : list (name * val)) (f : Z) : option Z :=
+  match kv with
+  | [] => Some f
+  | e :: t => match entry_mask table e with
+              | Some None => union_entries table t f
+              | Some (Some z) => union_entries table t (Z.lor f z)
+              | None => None
+              end
+  end.
+
+Definition flags_dict_step (table : list (name * Z)) (p : path) (acc : res val) (e : name * val) : res val :=
+  let* a := acc in
+  if is_private (fst e) then Ok a
+  else if truthy (snd e) then
+    match label_value table (cps_of_name (fst e)), a with
+    | Some z, VInt f => Ok (VInt (Z.lor f z))
+    | _, _ => raise EMapping p
+    end
+  else Ok a.
+
+Lemma flags_dict_fold_err table p kv e q : fold_left (flags_dict_step table p) kv (Err e q) = Err e q.
+Proof. induction kv as [|a t IH]; cbn [fold_left]; [reflexivity|]. exact IH. Qed.
+
+Lemma flags_dict_fold_spec table p : forall kv f,
+  fold_left (flags_dict_step table p) kv (Ok (VInt f)) =
+  match union_entries table kv f with Some m => Ok (VInt m) | None => raise EMapping p end.
+Proof.
+  induction kv as [|a t IH]; intros f; cbn [fold_left union_entries]; [reflexivity|].
+  unfold entry_mask. unfold flags_dict_step at 2. cbn [bind].
+  destruct (is_private (fst a)); [apply IH|]. destruct (truthy (snd a)); [|apply IH].
+  destruct (label_value table (cps_of_name (fst a))) as [z|]; [apply IH|]. unfold raise. apply flags_dict_fold_err.
+Qed.
+
+Theorem flags_dict_is_union : forall table kv p,
+  flags_encode table (VDict kv) p =
+  match union_entries table kv 0 with Some m => Ok (VInt m) | None => raise EMapping p end.
+Proof. intros. unfold flags_encode. apply (flags_dict_fold_spec table p). Qed.
+
+Definition entry_bit (table : list (name * Z)) (n : Z) (e : name * val) : bool :=
+  match entry_mask table e with Some (Some z) => Z.testbit z n | _ => false end.
+
+Theorem flags_dict_bits : forall table kv p m,
+  flags_encode table (VDict kv) p = Ok (VInt m) ->
+  forall n, Z.testbit m n = existsb (entry_bit table n) kv.
+Proof.
+  intros table kv p m H n. rewrite flags_dict_is_union in H.
+  destruct (union_entries table kv 0) as [m'|] eqn:E; [|discriminate]. injection H as <-.
+  assert (G : forall kv f m, union_entries table kv f = Some m -> Z.testbit m n = Z.testbit f n || existsb (entry_bit table n) kv).
+  { clear. induction kv as [|a t IH]; intros f m H; cbn [union_entries existsb] in *.
+    - injection H as <-. rewrite orb_false_r. reflexivity.
+    - unfold entry_bit at 1. destruct (entry_mask table a) as [[z|]|]; [| |discriminate].
+      + rewrite (IH _ _ H), Z.lor_spec, orb_assoc. reflexivity.
+      + rewrite (IH _ _ H). reflexivity. }
+  rewrite (G _ _ _ E), Z.testbit_0_l. reflexivity.
+Qed.
+
 (* a spelling with an unknown label is refused *)
 Theorem flags_string_unknown : forall table cps p,
   union_masks table (split_bar cps []) 0 = None -> flags_encode table (VStr cps) p = raise EMapping p.
